@@ -68,6 +68,35 @@ pub enum WriteLogResult {
 /// oneshot 通道发送端，承载对外写入结果 `anyhow::Result<WriteLogResult>`。
 pub type LogWriteResultSender = tokio::sync::oneshot::Sender<anyhow::Result<WriteLogResult>>;
 
+/// Verification hook (only compiled with `--cfg nacos_group_r_nacos_verif`, inert unless a limit is set): lets a test
+/// harness make log files "full" after a few hundred records instead of 173k+, so that file switches, multi-file
+/// truncation and compaction of closed files can be explored cheaply. The file format is unchanged: only the point at
+/// which `write` reports the index area as full moves.
+#[cfg(nacos_group_r_nacos_verif)]
+pub mod verif_hook {
+    use std::sync::atomic::{AtomicU64, Ordering};
+    static LIMIT: AtomicU64 = AtomicU64::new(u64::MAX);
+
+    /// 0 = no override. The first call reads the environment variable RNV_LOG_INDEX_AREA_LIMIT.
+    pub fn index_area_limit() -> u64 {
+        let v = LIMIT.load(Ordering::Relaxed);
+        if v != u64::MAX {
+            return v;
+        }
+        let e = std::env::var("RNV_LOG_INDEX_AREA_LIMIT")
+            .ok()
+            .and_then(|s| s.parse::<u64>().ok())
+            .unwrap_or(0);
+        LIMIT.store(e, Ordering::Relaxed);
+        e
+    }
+
+    /// absolute file offset at which the index area counts as full (0 = the real one from the file header)
+    pub fn set_index_area_limit(v: u64) {
+        LIMIT.store(v, Ordering::Relaxed);
+    }
+}
+
 pub struct LogInnerManager {
     data_file: tokio::fs::File,
     index_file: tokio::fs::File,
@@ -316,10 +345,22 @@ impl LogInnerManager {
     }
      */
 
+    /// end of the index area of this log file (the file is full when fewer than 10 bytes of it are left)
+    fn index_area_limit(&self) -> u64 {
+        #[cfg(nacos_group_r_nacos_verif)]
+        {
+            let v = verif_hook::index_area_limit();
+            if v != 0 {
+                return v;
+            }
+        }
+        self.header.data_area_index as u64
+    }
+
     pub async fn write(&mut self, record: &LogRecordDto) -> anyhow::Result<LogWriteMark> {
         //let last_index = self.indexs.last().unwrap();
         //println!("write 001,{},{},{}",last_index.file_index,last_index.log_index,self.header.data_area_index);
-        if self.index_cursor + 10 >= self.header.data_area_index as u64
+        if self.index_cursor + 10 >= self.index_area_limit()
             || self.data_cursor >= 2_000_000_000
         {
             self.flush_log().await?;
@@ -367,7 +408,7 @@ impl LogInnerManager {
                 file_index: self.data_cursor,
             });
         }
-        if self.index_cursor + 10 >= self.header.data_area_index as u64
+        if self.index_cursor + 10 >= self.index_area_limit()
             || self.data_cursor >= 2_000_000_000
         {
             self.flush_log().await?;
